@@ -546,6 +546,11 @@ func VerifSetAckHandler(m *Memberlist, seqNo uint32, timeout time.Duration) *int
 	return &n
 }
 
+// VerifSetAckHandlerFn registers fn as the ack function under seqNo.
+func VerifSetAckHandlerFn(m *Memberlist, seqNo uint32, fn func(), timeout time.Duration) {
+	m.setAckHandler(seqNo, func([]byte, time.Time) { fn() }, timeout)
+}
+
 // VerifInvokeAck / VerifInvokeNack deliver an ack / nack for seqNo to the pending-handler table.
 func VerifInvokeAck(m *Memberlist, seqNo uint32) {
 	m.invokeAckHandler(ackResp{SeqNo: seqNo}, time.Now())
